@@ -45,7 +45,8 @@ THEOREMS = ['C14_squeeze_closed_form', 'C14_content_layout',
             'C14_parse_all_congruence_linked', 'C14_parse_metamorphic_linked',
             'C14_parse_metamorphic_c09_linked', 'C14_message_no_blank_refuted',
             'C14_surface_reader_linked', 'C14_spellings_same_number_linked',
-            'C14_shorthand_expected_jim', 'C14_parse_metamorphic_density_linked']
+            'C14_shorthand_expected_jim', 'C14_parse_metamorphic_density_linked',
+            'C14_decimal_point_same_value_linked']
 TRUSTED = [
     'hand-written model coq/C14/Model.v (modelled, tied by execution only); '
     'regexes re-implemented as scanners: tied exhaustively on short strings '
@@ -53,9 +54,14 @@ TRUSTED = [
     'not proved equivalent to the regexes',
     'Python str.split/splitlines/lower and the regex class \\s are modelled on '
     'ASCII only',
-    'everything after Card.content()/split and the option tokens: geometry '
-    'parser, float(), expand_data_card (nR nI nM nJ), normalize_float are NOT '
-    'modelled here; their formatting invariance is checked by the sweep only',
+    'linked, not re-modelled: the cell parser after cellcard.split (C15\'s '
+    'model, environment universally quantified), normalize_float (C09\'s '
+    'model), the reader of surface cards incl. what to_float VALUE a token has '
+    '(C02\'s model); their own ties are those properties\' trusted base',
+    'not modelled and not linked (rewrite sweep only): the geometry parser, '
+    'the VALUES of data-card entries (the shorthand model is generic in the '
+    'numbers, tied at exact rationals on integer tokens), the LOG shorthand, '
+    'everything after parsing, the written file',
     'fingerprints (polynomial hashes mod 2^31-1 on both sides) stand for '
     'equality of the enumerated outputs',
     'harness: deck generator, layout renderer, impl.T4File reader, PEG shim '
@@ -72,7 +78,10 @@ ASSUMPTIONS = [
     'a line is not a lone "c"/"C"; a card starts with fewer than 5 blank '
     'columns on a line not preceded by an "&" continuation; title and block '
     'lines are non-blank and hold no \\r/\\n; before the options no blank or ")" '
-    'is directly followed by a letter or "*" (opt_free)',
+    'is directly followed by a letter or "*" (opt_free); option strings neither '
+    'start nor end with a colon (owf) in the linked statements',
+    'to_float model: tokens over [0-9 . + - e E d D] (no inf, nan, '
+    'underscores, blanks)',
     'only get_cards(skipcomments=True) is modelled (the only mode the '
     'converter uses)',
 ]
@@ -715,7 +724,28 @@ CORPUS = [
 ]
 
 
+# second corpus deck: two cells of the same material and density (seeded change
+# C14_B: compositions keyed on the value, associations on the spelling)
+CORPUS2_BASE = ('''corpus two cells\n1 1 -2.7 -1 imp:n=1\n2 1 -2.7 1 -2 imp:n=1\n3 0 2 imp:n=0\n\n'''
+                '''1 so 5.0\n2 so 9.0\n\nm1 13027 1.0\n''')
+CORPUS2 = [
+    ('second density -2.7e0', lambda t: t.replace('2 1 -2.7 ', '2 1 -2.7e0 ')),
+    ('second density -27.-1', lambda t: t.replace('2 1 -2.7 ', '2 1 -27.-1 ')),
+    ('second density -.27d1', lambda t: t.replace('2 1 -2.7 ', '2 1 -.27d1 ')),
+    ('first density -2.70, second -2.7+0', lambda t: t.replace('1 1 -2.7 ', '1 1 -2.70 ').replace('2 1 -2.7 ', '2 1 -2.7+0 ')),
+]
+
+
 def run_corpus(res):
+    base2 = outcome(convert(CORPUS2_BASE))
+    res.count('corpus2:base:' + str(base2[0]))
+    for label, rewrite in CORPUS2:
+        text = rewrite(CORPUS2_BASE)
+        res.seen(text)
+        ok = compare(CORPUS2_BASE, base2, text,
+                     {'used': ['corpus: ' + label], 'stream': 'corpus'}, True, res)
+        res.count('corpus2:' + ('same' if ok else 'differs'))
+
     base = outcome(convert(CORPUS_BASE))
     res.count('corpus:base:' + str(base[0]))
     for label, rewrite in CORPUS:
